@@ -56,6 +56,29 @@ func init() {
 			if len(sa.outbox)+len(sb.outbox) == 0 {
 				sa.outbox = append(sa.outbox, newOutMsg(genMessage(c.Rng, sa.mycall, sb.mycall, 300)))
 			}
+			if i%4 == 3 {
+				// several blocks one way (11-13 small messages): turn-overs with traffic still queued
+				big := sa
+				if c.Rng.Intn(2) == 0 {
+					big = sb
+				}
+				peerCall := sb.mycall
+				if big == sb {
+					peerCall = sa.mycall
+				}
+				seen := map[string]bool{}
+				for _, o := range append(append([]*outMsg{}, sa.outbox...), sb.outbox...) {
+					seen[o.mid] = true
+				}
+				for want := 11 + c.Rng.Intn(3); len(big.outbox) < want; {
+					m := genMessage(c.Rng, big.mycall, peerCall, 60)
+					if seen[m.MID()] {
+						continue
+					}
+					seen[m.MID()] = true
+					big.outbox = append(big.outbox, newOutMsg(m))
+				}
+			}
 			clean := runPairImpl(sa, sb, c.Rng.Int63(), -1, -1)
 			if clean.a.hung || clean.b.hung {
 				// the cut position k = "all bytes sent" is the session without a fault: it has to return as well
@@ -92,6 +115,7 @@ func init() {
 						continue
 					}
 					deliveryOracle(c, "C02", pr, false, rep)
+					completionOracle(c, pr, rep)
 					cases = append(cases, Case{Line: pairLine(sa, sb, limA, limB), Impl: pr.a.canon + " || " + pr.b.canon, Desc: fmt.Sprintf("cut %s after %d/%d bytes; %s", dir, k, len(stream), describeScenario(sa, sb)), Class: "cut-" + dir, Nontrivial: k > hs})
 				}
 			}
@@ -386,6 +410,12 @@ func dirMailboxRetry(c *Ctx) {
 		for j := 0; j < n; j++ {
 			m := genMessage(c.Rng, "LA5NTA", "N0CALL", 1500)
 			m.Header.Del("Cc") // a P2P peer is only offered messages addressed to it alone
+			if j == 0 && i%2 == 0 {
+				// MIDs are file names in this mailbox: characters that mean something in file names (a second dot, a
+				// tilde, the mailbox's own extension) are still just MIDs. (NOT a leading dot: LoadMessageDir skips
+				// hidden files on purpose, such a MID is outside what the mailbox supports - see DESIGN 12.5.)
+				m.Header.Set("Mid", []string{"RPT.2024." + genMid(c.Rng)[:1], "A~1.TXT", "X.b2f"}[c.Rng.Intn(3)])
+			}
 			if j > 0 && j%2 == 1 && len(lastMid) > 0 && swapCase(lastMid) != lastMid {
 				m.Header.Set("Mid", swapCase(lastMid)) // a different message whose MID differs only in letter case
 			}
@@ -487,5 +517,35 @@ func dirMailboxRetry(c *Ctx) {
 		os.RemoveAll(da)
 		os.RemoveAll(db)
 		c.Res.Distribution["dir-mailbox-retry"]++
+	}
+}
+
+// completionOracle: an Exchange that returns nil tells its caller that the session is complete ("repeating exchanges
+// until one completes"): every message that side had queued and the peer's policy accepts has then been reported
+// sent, every one it rejects reported as already received (deferred ones stay queued). A side whose link was lost
+// with traffic still queued has to say so.
+func completionOracle(c *Ctx, pr *pairRun, rep map[string]interface{}) {
+	for _, d := range []struct {
+		name       string
+		run        *sessRun
+		spec, peer *sessSpec
+	}{{"A", pr.a, pr.sa, pr.sb}, {"B", pr.b, pr.sb, pr.sa}} {
+		if d.run.err != nil || d.run.hung || d.run.panicked != nil {
+			continue
+		}
+		for _, o := range d.spec.outbox {
+			if !o.valid {
+				continue
+			}
+			ans, ok := d.peer.policy[o.mid]
+			if !ok {
+				ans = '+'
+			}
+			rej, reported := d.run.tw.sent[o.mid]
+			if (ans == '+' && (!reported || rej)) || (ans == '-' && (!reported || !rej)) {
+				c.Violate("C02:completed-with-traffic-pending:"+d.name, fmt.Sprintf("Exchange returned nil on side %s although its message %s (peer's answer %c) was neither delivered nor reported", d.name, o.mid, ans), rep)
+				return
+			}
+		}
 	}
 }
